@@ -3,4 +3,5 @@ NEXT Next
 INVARIANT InvBalanced
 INVARIANT InvErrHasSpan
 INVARIANT InvJumpOk
+INVARIANT InvRefsResolved
 CHECK_DEADLOCK TRUE
